@@ -876,6 +876,36 @@ def fam_c19(R, n_random):
         'type item referring to another, acyclic (resource exhaustion)')
     for p in ['(?&nope)', 'a(?&b)']:
         add(enum([], ['#[regex(%s)] A,' % rust_str(p)]), 'reject', 'undef_subpattern')
+    # an argument left empty (a stray comma): a diagnostic, never an implementation made of the stray tokens
+    for a in ['#[token("a",,)]', '#[regex("x", , priority = 3)]', '#[regex("x", priority = 3, , )]', '#[token("a", , )]', '#[regex("x", |_| (), , priority = 3)]',
+              '#[regex("x", priority = 3,, callback = |_| ())]']:
+        add(enum([], ['%s A,' % a]), 'reject', None, 'empty argument')
+    add(enum(['#[logos(skip " ", , utf8 = true)]'], ['#[token("a")] A,']), 'reject', None, 'empty item')
+    # blanks between tokens mean nothing: the same definition written without blanks around `=` and after `,` (the `=` or `,`
+    # is then directly followed by punctuation: `callback=|lex| ..`, `extras=&'static str`, `priority=-1`, `"a",|lex| ..`)
+    # gets the same verdict and the same implementation
+    def tight(s_):
+        return s_.replace(' = ', '=').replace(', ', ',')
+    for attrs, variants, head in [
+            ([], ['#[regex("[0-9]+", callback = |lex| lex.slice().len())] A(usize),'], None),
+            ([], ['#[regex("[0-9]+", |lex| lex.slice().len(), priority = 3)] A(usize),'], None),
+            ([], ['#[token("a", priority = -1)] A,'], None),
+            ([], ['#[token("a", priority = 3, callback = ::core::mem::drop)] A,'], None),
+            ([], ['#[regex("a+", callback = |_| (), priority = 3)] A,', '#[token("b", ignore(case), callback = |_| ())] B,'], None),
+            (["#[logos(extras = &'static str)]"], ['#[token("a")] A,'], None),
+            (["#[logos(skip \" \", extras = &'static str, utf8 = true)]"], ['#[token("a")] A,'], None),
+            (["#[logos(error = &'static str)]"], ['#[token("a")] A,'], None),
+            (['#[logos(error(u8, callback = |_| 1u8))]'], ['#[token("a")] A,'], None),
+            (['#[logos(error(u8, |_| 1u8))]'], ['#[token("a")] A,'], None),
+            (["#[logos(type X = &'static str, lifetime = none)]"], ['#[token("a", |_| "")] A(X),'], 'pub enum T<X>'),
+            (["#[logos(lifetime = 'a, type X = &'a str)]"], ['#[regex("a+")] A(X),'], "pub enum T<'a, X>"),
+            (['#[logos(subpattern d = "[0-9]", skip " ")]'], ['#[regex("(?&d)+", callback = |lex| lex.slice().len())] A(usize),'], None),
+            (['#[logos(crate = ::logos)]'], ['#[token("a")] A,'], None)]:
+        src = enum(attrs, variants)
+        if head:
+            src = src.replace('pub enum T', head)
+        E.append(dict(family='c19', src=src, meta=dict(expect='any', cls=None, note='blanks: spaced form', pair=len(E) + 1)))
+        E.append(dict(family='c19', src=tight(src), meta=dict(expect='any', cls=None, note='blanks: tight form', pair=len(E) - 1)))
     # diagnostics that quote long user text with characters of every UTF-8 width, at every alignment (0-3 ASCII bytes of
     # padding in front): the pattern, a subpattern name, an unknown item or argument; whatever is done to the text of a
     # message (clipping, wrapping, escaping) must not fall between the bytes of a character
